@@ -563,6 +563,7 @@ def gen_ops(rng, paths, slots, tier, light=False, slow=False):
             for i in range(base, base + cnt):
                 if devs[i][0] in (1, 2):
                     ops.append(("hopen %d" % i, None))
+                    ops.append(("hopen2 %d" % i, None))
         base += cnt
     kinds_bad = [7, 8, 255, 256, 65536, 2 ** 31 - 1, 2 ** 31, 2 ** 32 - 1, rng.randrange(7, 2 ** 32)]
     for k in list(range(0, 7)) + kinds_bad:
@@ -649,6 +650,8 @@ def run_config(paths, slots, ops, tag, watchdog_ms=2000, timeout=900):
             op = "open " + op[6:]
         if op.startswith("hopen "):     # the same open, through camera_open / storage_open
             op = "open " + op[6:]
+        if op.startswith("hopen2 "):    # ... after a second device manager was initialised and destroyed in the same process
+            op = "open " + op[7:]
         if op.startswith("sel "):
             head, _, tail = r.partition(" | ")
             if tail.startswith("inconclusive"):
